@@ -194,7 +194,7 @@ func buildBlockWorld() {
 			bw.menus[f] = append(bw.menus[f], buildMenuTx(f, m))
 		}
 	}
-	s, err := observe(w.freshState())
+	s, err := observe(w.freshState(), nil)
 	if err != nil {
 		panic(err)
 	}
@@ -251,7 +251,7 @@ func execBlock(c blockCase) *blockRun {
 		b.fail("commit-succeeds", "commitBlock returned "+err.Error())
 		return b
 	}
-	snap, oerr := observe(st)
+	snap, oerr := observe(st, bw.base)
 	if oerr != nil {
 		b.err = oerr.Error()
 		b.fail("state-readable", oerr.Error())
